@@ -117,11 +117,14 @@ std::string listing(std::vector<std::string>* gensOut) {
 
 size_t cost(const std::string& msg) { return gS.kind == "counted" ? 1 : msg.size() + 1; }
 
-/// the property evaluated on what is on disk alone.  Only meaningful when every message fits the limit
-/// and contains no newline (the generator's domain); otherwise skipped.
+/// the property evaluated on what is on disk alone.  Domain: limit >= 1 and no message contains a newline
+/// (the lines of a file are taken as its messages); otherwise skipped.  Messages that are longer than a whole
+/// generation ARE in the domain: the limit clause (2) then reads "a generation respects the limit or consists
+/// of exactly one message" (Lean: GenOk), the other clauses are unchanged.
 std::string oracle(const std::vector<std::string>& gens) {
+   if (gS.limit < 1) return "";
    for (auto& w : gWritten)
-      if (w.find('\n') != std::string::npos || cost(w) > gS.limit) return "";
+      if (w.find('\n') != std::string::npos) return "";
    // split every generation into its lines; every line must be newline-terminated (no truncation)
    std::vector<std::vector<std::string>> lines;
    for (auto& g : gens) {
@@ -145,12 +148,17 @@ std::string oracle(const std::vector<std::string>& gens) {
    if (gens.size() < static_cast<size_t>(std::max(gS.gens, 1)) && flat.size() != gWritten.size())
       return "!! messages lost although fewer generations than configured exist (retained " +
              std::to_string(flat.size()) + " of " + std::to_string(gWritten.size()) + ")";
-   // (2) limit
+   // (2) limit: only a generation that is one single message (which then does not fit a generation on its
+   //     own: there is nowhere else to put it) may exceed it; a generation with two or more messages above the
+   //     limit means a message was appended although it did not fit
    for (size_t i = 0; i < gens.size(); ++i) {
       size_t sz = gS.kind == "counted" ? lines[i].size() : gens[i].size();
-      if (sz > gS.limit) return "!! generation exceeds its limit: " + std::to_string(sz) + " > " + std::to_string(gS.limit);
+      if (sz > gS.limit && lines[i].size() != 1)
+         return "!! generation exceeds its limit: " + std::to_string(sz) + " > " + std::to_string(gS.limit) + " with " +
+                std::to_string(lines[i].size()) + " messages";
    }
-   // (3) a new generation only when the next message would not have fitted
+   // (3) a new generation only when the next message would not have fitted behind the content of the previous
+   //     one (an over-long message fits nowhere; nothing fits behind an over-long message)
    for (size_t i = 0; i + 1 < gens.size(); ++i) {
       size_t sz = gS.kind == "counted" ? lines[i].size() : gens[i].size();
       size_t next = lines[i + 1].empty() ? 1 : cost(lines[i + 1].front());
